@@ -291,6 +291,12 @@ func genC07(g *Rng, tier string, emit func(Op)) {
 			emit(col.relOp("sequential"))
 		}
 	}
+	// a prepared commitment is consumed by at most one proof also while the cache is being prepared
+	// again after the credential moved on (executor shared with C20: child process, race detector on)
+	for _, n := range []int{3, 8} {
+		emit(Op{"op": "race-run", "class": "race/prep-refresh-prove", "label": "ok", "key": "race/prep-refresh-prove", "fkey": "C07/cache-refresh-with-provers",
+			"scenario": "prep-refresh-prove", "goroutines": n, "gomaxprocs": 4, "iters": 2, "seed": int(g.u64() >> 12)})
+	}
 	// range statements: the square roots of the slack and their blinding values are hidden numbers
 	// too, each with a randomiser of its own. Were two of them blinded alike, the difference of
 	// their responses would be c times the difference of the roots (and a root that is 0 gives
